@@ -1186,6 +1186,8 @@ class InertiaMoment(UnitBase):
             target_value = self.__value
 
         if inplace:
+            if target_value <= 0:
+                raise ValueError("Parameter 'value' must be positive.")
             self.__value = target_value
             self.__unit = target_unit
             return self
@@ -1845,6 +1847,10 @@ class TimeInterval(Time):
            >>> dt
            3600.0 sec
         """
+        if inplace is True:
+            if super().to(target_unit=target_unit).value <= 0:
+                raise ValueError("Parameter 'value' must be positive.")
+
         converted = super().to(target_unit=target_unit, inplace=inplace)
 
         if inplace:
@@ -2052,6 +2058,8 @@ class Length(UnitBase):
             target_value = self.__value
 
         if inplace:
+            if target_value <= 0:
+                raise ValueError("Parameter 'value' must be positive.")
             self.__value = target_value
             self.__unit = target_unit
             return self
@@ -2251,6 +2259,8 @@ class Surface(UnitBase):
             target_value = self.__value
 
         if inplace:
+            if target_value <= 0:
+                raise ValueError("Parameter 'value' must be positive.")
             self.__value = target_value
             self.__unit = target_unit
             return self
